@@ -78,7 +78,7 @@ def check(ctx):
     # right-hand side of each step is the previous level (no extra clipping)
     rhs_rule(ctx, "C02-b")
     # ---- C02-d/e flux stencil and time quadrature
-    n = flux_mode(ctx, "C02-d")
+    n = flux_mode(ctx, "C02-d") + flux_mode(ctx, "C02-d", "SinglePhaseReservoir")
     ctx.floor("C02-d", n, 1, "flux-mode recovery paths")
     # ---- C02-f/g scales
     fvf_and_alpha(ctx, "C02-f")
